@@ -39,6 +39,12 @@ func NewFileStream(path string) (*FileStream, error) {
 }
 
 func (f *FileStream) ReadAll() ([]rune, error) {
+	// the whole file is consumed here: release the descriptor now instead of leaving it
+	// to the garbage collector (a long-lived process would run out of descriptors)
+	if closer, ok := f.reader.(io.Closer); ok {
+		defer closer.Close()
+	}
+
 	var result []rune
 	for {
 		res, eof, err := f.read(defaultReadBlock)
